@@ -22,7 +22,11 @@ from ..build import AnalysisBroken
 ENGINE_FNS = {'GeographicLib::SphericalEngine::Value': 3, 'GeographicLib::SphericalEngine::Circle': 0}
 
 
-def _enum_value(prog, name, cache={}):
+_ENUM_CACHE = {}
+
+
+def _enum_value(prog, name):
+    cache = _ENUM_CACHE.setdefault(id(prog), {})
     if not cache:
         for e in prog.enums.values():
             scope = e['q'].rsplit('::', 1)[0] if e.get('name') else e['q']
